@@ -31,8 +31,8 @@ ENCODED = ["twisted.protocols.amp:BoxDispatcher._sendBoxCommand", "twisted.proto
            "twisted.protocols.amp:Command._doCommand", "twisted.protocols.amp:CommandLocator._wrapWithSerialization",
            "twisted.protocols.amp:BinaryBoxProtocol.connectionLost", "twisted.protocols.amp:BinaryBoxProtocol.sendBox",
            "twisted.protocols.amp:AMP.connectionLost", "twisted.protocols.amp:QuitBox._sendTo"]
-BOUNDS = {"quick": {"len": 6, "calls": 3, "bkinds": 2, "chains": 1, "ckinds": 4, "bckinds": 0},
-          "thorough": {"len": 8, "calls": 3, "bkinds": 4, "chains": 1, "ckinds": 4, "bckinds": 2}}
+BOUNDS = {"quick": {"len": 6, "calls": 3, "bkinds": 2, "chains": 1, "ckinds": 4, "bckinds": 0, "bsub": 0, "subany": 0},
+          "thorough": {"len": 8, "calls": 3, "bkinds": 4, "chains": 1, "ckinds": 4, "bckinds": 2, "bsub": 1, "subany": 1}}
 B = {}
 BOUNDS_TEXT = ("every schedule of <= len steps with <= calls callRemote invocations in total; the first call is "
                "A's (A and B are the same class: symmetry); A's commands have all 4 responder behaviours (answer now, "
@@ -40,7 +40,10 @@ BOUNDS_TEXT = ("every schedule of <= len steps with <= calls callRemote invocati
                "`chains` CHAINED call per schedule (A: first `ckinds` behaviours, B: first `bckinds`): its result "
                "handler - success callback or errback, also the errback run by failAllOutgoing while the loss is "
                "being processed - issues one further callRemote, which is tracked like any other call (a chained "
-               "call uses two of the call budget); a step that is not enabled (empty queue, nothing pending, call "
+               "call uses two of the call budget); a fifth behaviour - the responder fails with a strict SUBCLASS of "
+               "the declared error, at once (step 23/24) or through its Deferred (step 25) - must reach the caller as "
+               "the declared error class with the connection left up (quick tier: only as the first call / while a "
+               "single responder is pending; thorough: anywhere, both peers); a step that is not enabled (empty queue, nothing pending, call "
                "budget used; op code 14 is never enabled) ends the schedule, so the list of exactly `len` step codes "
                "covers all shorter schedules too")
 OUTSIDE = ["byte-level disconnect positions and partial boxes (box-level delivery only; the byte parser is C30)",
@@ -89,8 +92,16 @@ class CmdUndecl(_Base):
     pass
 
 
-CMDS = [CmdNow, CmdLater, CmdDecl, CmdUndecl]
-NOW, LATER, DECL, UNDECL = 0, 1, 2, 3
+class CmdSub(_Base):
+    pass
+
+
+class SubDeclaredError(DeclaredError):
+    """a strict subclass of the declared error: must travel as the DECLARED error"""
+
+
+CMDS = [CmdNow, CmdLater, CmdDecl, CmdUndecl, CmdSub]
+NOW, LATER, DECL, UNDECL, SUBDECL = 0, 1, 2, 3, 4
 
 
 class Peer(amp.AMP):
@@ -116,6 +127,10 @@ class Peer(amp.AMP):
     @CmdUndecl.responder
     def r_undecl(self, tag):
         raise RuntimeError("undeclared")
+
+    @CmdSub.responder
+    def r_sub(self, tag):
+        raise SubDeclaredError("subclass of the declared error")
 
 
 class _Transport:
@@ -175,7 +190,7 @@ class _World:
             return r
 
         def err(f, cid=cid):
-            if f.check(DeclaredError):
+            if f.type is DeclaredError:
                 self.res[cid].append(("decl",))
             elif f.check(amp.UnknownRemoteError):
                 self.res[cid].append(("unknown",))
@@ -204,7 +219,8 @@ class _World:
                 self.mq[to].append(("ans", cid))
             elif kind == LATER:
                 self.mpend.append(cid)
-            elif kind == DECL:
+            elif kind == DECL or kind == SUBDECL:
+                # a subclass of the declared error is the declared error on the wire; connection stays up
                 self.mq[to].append(("decl", cid))
             else:
                 self.mq[to].append(("unk", cid))
@@ -216,10 +232,14 @@ class _World:
         else:
             self.done[ent[1]] = ("unknown",)
 
-    def fire(self, idx, ok):
+    def fire(self, idx, ok, sub=False):
         side, tag, d = self.pending.pop(idx)
         cid = self.mpend.pop(idx)
-        if ok:
+        if sub:
+            d.errback(Failure(SubDeclaredError("later, subclass")))
+            if not self.lost:
+                self.mq[side].append(("decl", cid))
+        elif ok:
             d.callback({"tag": tag})
             if not self.lost:
                 self.mq[side].append(("ans", cid))
@@ -264,7 +284,26 @@ class _World:
 
 # op codes
 A_CALL, B_CALL, D_AB, D_BA, F_OLD_OK, F_OLD_ERR, F_NEW_OK, LOSE = 0, 4, 8, 9, 10, 11, 12, 13
-STOP, A_CHAIN, B_CHAIN, NCODES = 14, 15, 19, 23     # 15-18 / 19-22: chained call of kind 0-3 by A / B
+STOP, A_CHAIN, B_CHAIN = 14, 15, 19     # 15-18 / 19-22: chained call of kind 0-3 by A / B
+A_SUB, B_SUB, F_OLD_SUBERR, NCODES = 23, 24, 25, 26   # call whose responder raises a SUBCLASS of the declared
+#                                                       error (sync); fire the oldest pending one with it
+
+
+def _decode_call(sel):
+    """(side, kind, chained) of a call step code, or None"""
+    if sel < B_CALL:
+        return "A", sel - A_CALL, False
+    if sel < D_AB:
+        return "B", sel - B_CALL, False
+    if A_CHAIN <= sel < B_CHAIN:
+        return "A", sel - A_CHAIN, True
+    if B_CHAIN <= sel < A_SUB:
+        return "B", sel - B_CHAIN, True
+    if sel == A_SUB:
+        return "A", SUBDECL, False
+    if sel == B_SUB:
+        return "B", SUBDECL, False
+    return None
 
 
 def _enabled(w, ncalls):
@@ -273,6 +312,10 @@ def _enabled(w, ncalls):
         en += [A_CALL + k for k in range(4)]
         if ncalls > 0:
             en += [B_CALL + k for k in range(B['bkinds'])]
+        if ncalls == 0 or B['subany']:
+            en.append(A_SUB)            # quick tier: only as the first call of the schedule
+        if ncalls > 0 and B['bsub']:
+            en.append(B_SUB)
         if w.nchain < B['chains'] and ncalls + 2 <= B['calls']:     # a chained call uses two of the call budget
             en += [A_CHAIN + k for k in range(B['ckinds'])]
             if ncalls > 0:
@@ -284,6 +327,8 @@ def _enabled(w, ncalls):
             en.append(D_BA)
     if len(w.mpend) >= 1:
         en += [F_OLD_OK, F_OLD_ERR]
+        if len(w.mpend) == 1 or B['subany']:
+            en.append(F_OLD_SUBERR)     # quick tier: only while a single responder is pending
     if len(w.mpend) >= 2:
         en.append(F_NEW_OK)
     if not w.lost:
@@ -303,12 +348,9 @@ def _untraced():
 
 
 def _step(w, sel):
-    if sel < D_AB:
-        side = "A" if sel < B_CALL else "B"
-        w.call(side, sel - (A_CALL if sel < B_CALL else B_CALL))
-    elif sel >= A_CHAIN:
-        side = "A" if sel < B_CHAIN else "B"
-        w.call(side, sel - (A_CHAIN if sel < B_CHAIN else B_CHAIN), chained=True)
+    c = _decode_call(sel)
+    if c is not None:
+        w.call(c[0], c[1], chained=c[2])
     elif sel == D_AB:
         w.deliver("A")
     elif sel == D_BA:
@@ -317,6 +359,8 @@ def _step(w, sel):
         w.fire(0, True)
     elif sel == F_OLD_ERR:
         w.fire(0, False)
+    elif sel == F_OLD_SUBERR:
+        w.fire(0, False, sub=True)
     elif sel == F_NEW_OK:
         w.fire(len(w.pending) - 1, True)
     else:
@@ -338,10 +382,9 @@ def _run(ops):
                 break
         if sel is None:
             break               # a step that is not enabled ends the schedule
-        if sel < D_AB:
-            ncalls += 1
-        elif sel >= A_CHAIN:
-            ncalls += 2
+        c = _decode_call(sel)
+        if c is not None:
+            ncalls += 2 if c[2] else 1
         with _untraced():
             ok = _step(w, sel)
         if not ok:
@@ -370,7 +413,7 @@ def _final(w):
 
 def schedule(ops: List[int]) -> bool:
     """
-    pre: len(ops) == B['len'] and all(0 <= o <= 22 for o in ops)
+    pre: len(ops) == B['len'] and all(0 <= o <= 25 for o in ops)
     post: _
     """
     ok, w = _run(ops)
@@ -401,15 +444,13 @@ class _Abs:
 
     def step(self, sel):
         w = _Abs(self)
-        if sel < D_AB or sel >= A_CHAIN:
-            ch = sel >= A_CHAIN
-            side = "A" if (sel < B_CALL or A_CHAIN <= sel < B_CHAIN) else "B"
-            kind = (sel - A_CHAIN) % 4 if ch else sel % 4
+        c = _decode_call(sel)
+        if c is not None:
+            side, kind, ch = c
             if not w.lost:
                 w.mq[side].append(("req", kind, ch))
-            w.n += 1
+            w.n += 2 if ch else 1
             if ch:
-                w.n += 1
                 w.nchain += 1
         elif sel in (D_AB, D_BA):
             frm, to = ("A", "B") if sel == D_AB else ("B", "A")
@@ -421,7 +462,7 @@ class _Abs:
                     w.mq[to].append(("x", e[2]))
             elif e[1]:
                 w.mq[to].append(("req", NOW, False))    # the chained call's one further call
-        elif sel in (F_OLD_OK, F_OLD_ERR, F_NEW_OK):
+        elif sel in (F_OLD_OK, F_OLD_ERR, F_NEW_OK, F_OLD_SUBERR):
             side, ch = w.mpend.pop(-1 if sel == F_NEW_OK else 0)
             if not w.lost:
                 w.mq[side].append(("x", ch))
@@ -473,4 +514,6 @@ HARNESSES = [H(schedule, shards=_shards, timeout={"quick": 100, "thorough": 1500
 VECTORS = {"schedule": [([14],), ([0, 8, 9, 14],), ([1, 0, 8, 8, 9, 10, 9],), ([2, 8, 9, 14],), ([3, 8, 9, 14],),
                         ([1, 8, 13, 10, 14],), ([0, 4, 8, 9, 9, 8],), ([1, 1, 8, 8, 12, 9],), ([0, 13, 0, 14],),
                         ([1, 5, 9, 8, 11, 10],), ([15, 13, 14],), ([15, 8, 9, 8, 9, 14],), ([17, 8, 9, 8, 13, 14],),
-                        ([16, 0, 8, 8, 13, 10],), ([18, 8, 9, 4, 9, 13],), ([0, 15, 13, 14],), ([13, 15, 14],)]}
+                        ([16, 0, 8, 8, 13, 10],), ([18, 8, 9, 4, 9, 13],), ([0, 15, 13, 14],), ([13, 15, 14],),
+                        ([23, 8, 9, 14],), ([23, 0, 8, 8, 9, 9],), ([1, 8, 25, 9, 14],), ([1, 0, 8, 8, 25, 9, 9],),
+                        ([23, 1, 8, 8, 9, 10, 9],)]}
